@@ -206,9 +206,24 @@ class Gen:
             self.p(ind + 2, "LS[-1].index = %s" % idxvar)
             sub["loopdepth"] = scope["loopdepth"] + 1
             sub["sized"] = sized
-            # guaranteed read of a loop attribute so that Mako wraps this loop
-            self.loopattr(ind + 2, sub, force_simple=True)
-            self.body(ind + 2, depth + 1, sub)
+            if depth + 1 < self.maxdepth and r.random() < 0.25:
+                # the enclosing loop is mentioned ONLY through loop.parent inside a nested loop
+                var2 = "y%d" % self.uid()
+                self.ctl("for %s in (7, 8):" % var2)
+                self.p(ind + 2, "LS.append(LR((7, 8), LS[-1] if LS else None))")
+                self.p(ind + 2, "try:")
+                self.p(ind + 3, "for _j%d, %s in enumerate(LS[-1].iterable):" % (len(self.P), var2))
+                self.p(ind + 4, "LS[-1].index = _j%d" % (len(self.P) - 1))
+                self.expr(ind + 4, "loop.parent.index", "cur(LS).parent.index")
+                self.expr(ind + 4, "loop.parent.first", "cur(LS).parent.first")
+                self.p(ind + 4, "marks.add('loopattr')")
+                self.p(ind + 2, "finally:")
+                self.p(ind + 3, "LS.pop()")
+                self.ctl("endfor")
+            else:
+                # guaranteed read of a loop attribute so that Mako wraps this loop
+                self.loopattr(ind + 2, sub, force_simple=True)
+                self.body(ind + 2, depth + 1, sub)
             if r.random() < 0.3:
                 # what `loop` means inside the else clause of the loop itself (exhausted inner loop or
                 # the enclosing one) is left open by the statement: the clause never reads `loop`
